@@ -28,6 +28,7 @@ def extra(tier, rng):
     for _ in range(40 if tier == "quick" else 600):
         ws = [rng.randint(1, 6) for _ in range(rng.randint(2, 5))]
         res.append({"cfg": {"kinds": {}}, "profile": "staggered", "tops": [["value", coregen.staggered(ws)]]})
+    res.append({"cfg": {"kinds": {}}, "family": ["wide", 1100 if tier == "quick" else 2600]})
     return res
 
 
